@@ -286,3 +286,19 @@ class C17(HsProp):
                         if buf2[:len(buf)] == buf and len(buf2) > len(buf) and t2 not in ('E', 'M'):
                             return ('parser-P2: an error did not persist on an extension', cid2)
         return None
+
+
+def _c16_nohook_cases(self, tier):
+    return ['KR kr %d' % (256 if tier == 'quick' else 4096)]
+def _c16_nohook_monitor(self, case_line, trace):
+    kv = dict(x.split('=') for x in trace.split(' ') if '=' in x)
+    if not kv:
+        return 'key-stats: hook-off build did not run (%s)' % trace[:60]
+    n = int(kv['requests'])
+    if int(kv['wellformed16']) != n:
+        return 'key-shape: %s of %d request keys are base64 of 16 bytes' % (kv['wellformed16'], n)
+    if int(kv['distinct']) != n:
+        return 'key-not-fresh: only %s distinct Sec-WebSocket-Key values in %d requests' % (kv['distinct'], n)
+    return None
+C16.nohook_cases = _c16_nohook_cases
+C16.nohook_monitor = _c16_nohook_monitor
